@@ -167,10 +167,17 @@ def run(ctx):
     dsel = find_aggregates(sel, "CompressionCodec", "DeltaBitPacked")
     ctx.floor("R6", len(dsel), 1, "places where the selector offers DeltaBitPacked")
     for bi, si, rv, ln in dsel:
+        SLICING = ("Index>::index", "::index", "::get", "::split_at", "::take", "::first_chunk", "::chunks", "::min")
+        def whole_input(x):
+            # the tested sequence is the function's input itself, not a prefix / sample of it: what is encoded later is the
+            # whole slice, so a test on `&values[..n]` says nothing about the rest
+            recv = x[3][0] if x[3] and isinstance(x[3][0], (set, frozenset)) else set()
+            cut = sorted(t for t in recv if t.startswith("call:") and t.endswith(SLICING)) + sorted(t for t in recv if t.startswith("agg:Range"))
+            return not cut
         ok = any(x[0] == "call" and x[2] is True and (x[1].endswith("is_sorted") or
-                 (x[1].endswith("::all") and any(("bin:Le" in a or "bin:Lt" in a) for a in x[3]))) for x in sx.facts_at(bi))
+                 (x[1].endswith("::all") and any(("bin:Le" in a or "bin:Lt" in a) for a in x[3]))) and whole_input(x) for x in sx.facts_at(bi))
         ctx.ob("R6", "CodecSelector::select_for_integers#delta-only-if-sorted", ok,
-               what="the codec selector offers DeltaBitPacked without having tested that the values are sorted: the delta encoder "
+               what="the codec selector offers DeltaBitPacked without having tested that all the values it was given are sorted (no test, or a test on a slice / sample of them): the delta encoder "
                     "clamps negative steps to zero and the column decodes to other values", where=sel.loc(ln))
     ci = P.fn("TypeSpecificCompressor::compress_integers")
     cix = FlowCx(P, ci)
